@@ -141,3 +141,20 @@ package curve
 //@ func (*Secp256k1Point).MarshalBinary
 //@   nopanic[C05]
 //@   requires p != nil
+
+// Hash-to-scalar (C01, C16): SEC 1 truncation for every digest length -- the leftmost min(len, ceil(bits/8))
+// bytes, shifted right by the excess bits, reduced into the scalar field.
+//@ func FromHash
+//@   nopanic[C05]
+//@   use bits
+//@   requires group != nil
+//@   modifies nothing
+//@   allocates
+//@   let bits = nbits(natval(group.Order()))
+//@   let ob = (bits + 7) / 8
+//@   let n = ite(len(h) > ob, ob, len(h))
+//@   let ex = 8*n - bits
+//@   ensures result != nil && fresh(result)
+//@   ensures[C01,C16] scval(result) == s_of_nat(ite(ex > 0, be2int(bval(h[:n])) / pow2(ex), be2int(bval(h[:n]))))
+//@   summary scval(result) == fromhash(bval(h))
+//@ spec fn fromhash(Int) Int
